@@ -174,21 +174,25 @@ impl Context {
         let path = self.file_path.clone();
         let (ast, module_info, mut parse_errs) = parser::parse_to_expr(src, path);
         // let ast = parser::add_global_context(ast, self.file_path.unwrap_or_default());
-        let mir = mirgen::compile_with_module_info(
+        if !parse_errs.is_empty() {
+            // A tree with error nodes is only type-checked (to report what can still be
+            // reported); it must not reach macro expansion and MIR generation.
+            let (_, _, mut type_errs) = mirgen::typecheck_with_module_info(
+                ast,
+                self.get_ext_typeinfos().as_slice(),
+                self.file_path.clone(),
+                module_info,
+            );
+            parse_errs.append(&mut type_errs);
+            return Err(parse_errs);
+        }
+        mirgen::compile_with_module_info(
             ast,
             self.get_ext_typeinfos().as_slice(),
             &self.macros,
             self.file_path.clone(),
             module_info,
-        );
-        if parse_errs.is_empty() {
-            mir
-        } else {
-            let _ = mir.map_err(|mut e| {
-                parse_errs.append(&mut e);
-            });
-            Err(parse_errs)
-        }
+        )
     }
     pub fn emit_bytecode(&self, src: &str) -> Result<vm::Program, Vec<Box<dyn ReportableError>>> {
         let mir = self.emit_mir(src)?;
